@@ -79,11 +79,13 @@ class Input(object):
         return out
 
     def __iter__(self):
-        while True:
-            ln = self.readline()
-            if not ln:
-                return
-            yield ln
+        return self
+
+    def __next__(self):
+        ln = self.readline()
+        if not ln:
+            raise StopIteration
+        return ln
 
 
 def build_environ(method='GET', raw_path='/', query='', headers=(), body=b'', scheme='http',
